@@ -21,6 +21,9 @@ type Flow struct {
 	Name string
 	corr map[string][]types.Object
 	sw   map[*ast.CaseClause]*ast.SwitchStmt
+
+	preds    map[*cfg.Block][]*cfg.Block
+	nbStable map[*types.Var]int // named booleans: 0 unknown, 1 expandable (or being decided), 2 not expandable
 }
 
 // switchOf: the expression switch a case clause belongs to (nil for type switches / select).
@@ -256,6 +259,32 @@ func (f *Flow) normCond(e ast.Expr, depth int) ast.Expr {
 		default:
 			return e // results of calls, copies of other variables: values the rules track by variable
 		}
+		// the decision is per variable: every use of it must be stable, otherwise repeated tests of the name would
+		// be expanded at one place and kept at another (and no longer correlate)
+		if depth == 0 || true {
+			if f.nbStable == nil {
+				f.nbStable = map[*types.Var]int{}
+			}
+			switch f.nbStable[o] {
+			case 2:
+				return e
+			case 0:
+				f.nbStable[o] = 1 // provisional, prevents recursion
+				all := true
+				ast.Inspect(f.Body, func(n ast.Node) bool {
+					if id, ok := n.(*ast.Ident); ok && id != x && f.Info.Uses[id] == o && id.Pos() > def.End() {
+						if f.normCond(id, depth+1) == ast.Expr(id) {
+							all = false
+						}
+					}
+					return true
+				})
+				if !all {
+					f.nbStable[o] = 2
+					return e
+				}
+			}
+		}
 		stable := true
 		readsField := false
 		ast.Inspect(def, func(n ast.Node) bool {
@@ -368,7 +397,13 @@ func (f *Flow) Reach(q Query) ([]Pt, bool) {
 		pt := st.pt
 		if pt.I < len(pt.B.Nodes) {
 			facts := st.facts
-			if len(facts) > 0 {
+			// the branch condition itself (last node of a two-way block) defines nothing; a bare identifier there is a
+			// test of that variable, not a range key/value
+			isCondNode := pt.I == len(pt.B.Nodes)-1 && len(pt.B.Succs) == 2 && pt.B.Kind != cfg.KindRangeLoop
+			if _, isExpr := pt.B.Nodes[pt.I].(ast.Expr); !isExpr {
+				isCondNode = false
+			}
+			if len(facts) > 0 && !isCondNode {
 				// kill facts about variables assigned by this node
 				if killed := f.killedBy(pt.B.Nodes[pt.I], corr); len(killed) > 0 {
 					nf := map[string]bool{}
@@ -425,10 +460,15 @@ func (f *Flow) Reach(q Query) ([]Pt, bool) {
 		return out
 	}
 	for _, s := range q.From {
+		// facts the start point is known to be under: the branch edges that lead – without alternative – to it
+		var seed map[string]bool
+		if len(corr) > 0 {
+			seed = f.seedFacts(s, corr)
+		}
 		if q.Inclusive {
-			push(key{}, state{s, nil}, false)
+			push(key{}, state{s, seed}, false)
 		} else {
-			for _, n := range succs(state{s, nil}) {
+			for _, n := range succs(state{s, seed}) {
 				push(key{}, n, false)
 			}
 		}
@@ -1292,4 +1332,76 @@ func (f *Flow) ValueWorld(lookup func(ast.Expr) (constant.Value, bool)) func(b *
 		}
 		return w(b, i)
 	}
+}
+
+// seedFacts: correlated atoms known at pt because every way into pt's block comes over the same branch edges: the
+// chain of unique predecessors is followed upwards; facts killed by a statement between the branch and pt are dropped.
+func (f *Flow) seedFacts(pt Pt, corr map[string][]types.Object) map[string]bool {
+	if f.preds == nil {
+		f.preds = map[*cfg.Block][]*cfg.Block{}
+		for _, b := range f.G.Blocks {
+			for _, s := range b.Succs {
+				f.preds[s] = append(f.preds[s], b)
+			}
+		}
+	}
+	facts := map[string]bool{}
+	// statements executed between a branch and pt, innermost first: collect in reverse then apply kills
+	type seg struct {
+		b      *cfg.Block
+		upto   int
+		viaIdx int
+		pred   *cfg.Block
+	}
+	var chain []seg
+	b, upto := pt.B, pt.I
+	for n := 0; n < 32; n++ {
+		ps := f.preds[b]
+		if len(ps) != 1 {
+			chain = append(chain, seg{b: b, upto: upto, viaIdx: -1})
+			break
+		}
+		p := ps[0]
+		idx := -1
+		for i, s := range p.Succs {
+			if s == b {
+				if idx >= 0 {
+					idx = -2 // both edges lead here
+					break
+				}
+				idx = i
+			}
+		}
+		chain = append(chain, seg{b: b, upto: upto, viaIdx: idx, pred: p})
+		b, upto = p, len(p.Nodes)
+		if p == pt.B {
+			break // loop
+		}
+	}
+	// walk from the outermost branch towards pt
+	for i := len(chain) - 1; i >= 0; i-- {
+		sg := chain[i]
+		if sg.pred != nil && sg.viaIdx >= 0 {
+			if cond, isCase := f.Cond(sg.pred); cond != nil && !isCase {
+				for _, af := range atomsOnEdge(cond, sg.viaIdx) {
+					t, truth := canonAtom(af)
+					if _, tracked := corr[t]; tracked {
+						facts[t] = truth
+					}
+				}
+			}
+		}
+		for j := 0; j < sg.upto && j < len(sg.b.Nodes); j++ {
+			if sg.pred != nil && j == len(sg.b.Nodes)-1 && len(sg.b.Succs) == 2 {
+				// the block's own condition node has no effect
+			}
+			for k := range f.killedBy(sg.b.Nodes[j], corr) {
+				delete(facts, k)
+			}
+		}
+	}
+	if len(facts) == 0 {
+		return nil
+	}
+	return facts
 }
